@@ -102,13 +102,38 @@ def run_pipeline(cases, wd, tag, trace=True, chunk=4000):
         with open(cp, "w") as f:
             for c in ch:
                 f.write(json.dumps(c) + "\n")
-        p = subprocess.run([STUNH, "codec", cp, op] + (["trace"] if trace else []), stdout=subprocess.PIPE, stderr=subprocess.PIPE, text=True)
-        hang = None
-        if p.returncode == 3 and os.path.exists(op + ".hang"):
-            hang = read_ndjson(op + ".hang")
-        elif p.returncode != 0:
-            raise ToolError("adapter codec failed: " + p.stderr[-1500:])
-        obs = read_ndjson(op)
+        # the adapter stops at a case that does not terminate (watchdog, exit 3): record it and go on after it
+        obs_by_index = {}
+        hangs = set()
+        start = 0
+        while start < len(ch):
+            sub = os.path.join(wd, "%s_%d_%d.sub" % (tag, ci, start))
+            with open(sub, "w") as f:
+                for c in ch[start:]:
+                    f.write(json.dumps(c) + "\n")
+            p = subprocess.run([STUNH, "codec", sub, op] + (["trace"] if trace else []), stdout=subprocess.PIPE, stderr=subprocess.PIPE, text=True)
+            got = []
+            with open(op) as f:
+                for ln in f:
+                    try:
+                        got.append(json.loads(ln))
+                    except ValueError:
+                        break           # a partially written last line
+            for o in got:
+                obs_by_index[start + o["i"]] = o
+            os.remove(sub)
+            if p.returncode == 0:
+                break
+            if p.returncode == 3 and os.path.exists(op + ".hang"):
+                k = read_ndjson(op + ".hang")[0]["i"]      # 0-based index within the sub-file
+                os.remove(op + ".hang")
+                hangs.add(start + k + 1)
+                if len(hangs) >= 3:
+                    break                                  # enough evidence; do not spend 10 s on every further one
+                start = start + k + 1
+                continue
+            raise ToolError("adapter codec failed (rc=%s): %s" % (p.returncode, p.stderr[-1500:]))
+        obs = None
         r = tlc_judge("StunMessageJudge.tla", "StunMessageJudge.cfg", {"CASES": cp}, "message judge " + tag)
         exps = {}
         for ln in r["out"].splitlines():
@@ -119,11 +144,18 @@ def run_pipeline(cases, wd, tag, trace=True, chunk=4000):
         if not m or int(m.group(1)) != len(ch) or len(exps) != len(ch):
             raise ToolError("judge saw %s of %d cases" % (m.group(1) if m else None, len(ch)))
         for f in (cp, op):
-            os.remove(f)
+            if os.path.exists(f):
+                os.remove(f)
         out = []
-        omap = {o["i"]: o for o in obs}
         for k, c in enumerate(ch):
-            out.append((c, omap.get(k + 1), exps[k + 1], hang[0] if hang and hang[0]["i"] == k else None))
+            i = k + 1
+            if i in hangs:
+                out.append((c, None, exps[i], {"hang": True}))
+            elif i in obs_by_index:
+                o = obs_by_index[i]
+                o["i"] = i
+                out.append((c, o, exps[i], None))
+            # cases after the third hang were not run: not a verdict
         return out
 
     with cf.ThreadPoolExecutor(max_workers=6) as ex:
@@ -361,9 +393,9 @@ def enum_cases(cfgs, wd):
 
 
 # --------------------------------------------------------------------------- case sources
-ALPHA_TYPES = [6, 32802, 32512, 65280, 8, 28, 32808, 36]
+ALPHA_TYPES = [6, 32802, 32512, 65280, 8, 28, 32808, 36, 0]
 # wire type of each letter of MCStunMessage!Alphabet (only used to choose policing sets)
-LETTER_TYPES = [6, 6, 32802, 32802, 32512, 65280, 8, 8, 28, 28, 28, 32808, 32808, 32808, 32808, 36, 32802, 65280, 6]
+LETTER_TYPES = [6, 6, 32802, 32802, 32512, 65280, 8, 8, 28, 28, 28, 32808, 32808, 32808, 32808, 36, 32802, 65280, 6, 0]
 
 
 def gen_messages(n, seed, wd, maxattrs=5, tag="gen"):
